@@ -80,6 +80,7 @@ type fnTrans struct {
 	ghostRet  map[string]string
 	stable    map[ssa.Value]string // cells written once: their value
 	lastSel   string
+	selIdx    map[string]string
 	ghostVals map[string]sval
 	usedContracts map[string]bool
 	lockKeys  []lockKeyRef
